@@ -97,11 +97,81 @@ def divrange(t):
     return (a, b, s, k)
 
 
-USP_EIGHTHS = (16, 1025, 1, 8)      # `[x / 8 for x in range(16, 1025)]` inside USPMMCM.compute_config
+USP_EIGHTHS = (16, 1025, 1, 8)      # `[x / 8 for x in range(16, 1025)]` inside USPMMCM.compute_config (reviewed tree)
+
+
+def _fn_ast(fn):
+    import ast, inspect, textwrap
+    return ast.parse(textwrap.dedent(inspect.getsource(fn)))
+
+
+def usp_code_ranges():
+    """(multiplier list, CLKOUT0 divider list) of USPMMCM.compute_config as written in the tree under test: the two
+    `[x / K for x in range(A, B)]` comprehensions in source order -> (A, B, 1, K)."""
+    import ast
+    from litex.soc.cores.clock.xilinx_usp import USPMMCM
+    found = []
+    for node in ast.walk(_fn_ast(USPMMCM.compute_config)):
+        if isinstance(node, ast.ListComp) and isinstance(node.elt, ast.BinOp) and isinstance(node.elt.op, ast.Div) and \
+                len(node.generators) == 1 and isinstance(node.generators[0].iter, ast.Call) and \
+                getattr(node.generators[0].iter.func, "id", "") == "range":
+            try:
+                args = [ast.literal_eval(a) for a in node.generators[0].iter.args]
+                k = ast.literal_eval(node.elt.right)
+            except ValueError:
+                continue
+            if len(args) == 2 and isinstance(k, int):
+                found.append((node.lineno, (args[0], args[1], 1, k)))
+    found.sort()
+    if len(found) != 2:
+        raise RuntimeError("USPMMCM.compute_config: expected two x/K range comprehensions, found %d" % len(found))
+    return found[0][1], found[1][1]
+
+
+def code_literals():
+    """The literal search space written INSIDE the search functions (range(...) calls with constant arguments and lists of
+    numbers): pinned with the tables, so that a shortened/extended literal range shows up as a changed table."""
+    import ast
+    fns = {}
+    def add(mod, cls, meth):
+        try:
+            fns["%s.%s" % (cls, meth)] = getattr(getattr(clock_mod(mod), cls), meth)
+        except AttributeError:
+            fns["%s.%s" % (cls, meth)] = None
+    for mod, cls, meths in (("xilinx_common", "XilinxClocking", ["compute_config"]), ("xilinx_usp", "USPMMCM", ["compute_config"]),
+                            ("lattice_ecp5", "ECP5PLL", ["compute_config", "do_finalize"]),
+                            ("lattice_ice40", "iCE40PLL", ["compute_config", "do_finalize"]),
+                            ("lattice_nx", "NXPLL", ["compute_config"]), ("lattice_nx", "NXOSCA", ["compute_divisor"]),
+                            ("intel_common", "IntelClocking", ["compute_config"]),
+                            ("gowin_gw1n", "GW1NPLL", ["compute_config"]), ("gowin_gw1n", "GW1NOSC", ["__init__"]),
+                            ("gowin_gw5a", "GW5APLL", ["compute_config"]), ("efinix", "EFINIXPLL", ["compute_config"]),
+                            ("efinix", "TRIONPLL", ["get_c_range"]), ("colognechip", "GateMatePLL", ["do_finalize", "create_clkout"]),
+                            ("common", None, ["clkdiv_range"])):
+        for m in meths:
+            if cls is None:
+                fns[m] = getattr(clock_mod(mod), m, None)
+            else:
+                add(mod, cls, m)
+    out = {}
+    for name, fn in sorted(fns.items()):
+        if fn is None:
+            out[name] = ["<missing>"]
+            continue
+        lits = []
+        for node in ast.walk(_fn_ast(fn)):
+            if isinstance(node, ast.Call) and getattr(node.func, "id", "") == "range" and \
+                    all(isinstance(a, (ast.Constant, ast.UnaryOp)) for a in node.args):
+                lits.append((node.lineno, ast.unparse(node)))
+            elif isinstance(node, (ast.List, ast.Tuple)) and len(node.elts) >= 2 and \
+                    all(isinstance(e, ast.Constant) and isinstance(e.value, (int, float)) for e in node.elts):
+                lits.append((node.lineno, ast.unparse(node)))
+        out[name] = [t for _, t in sorted(lits)]
+    return out
 
 
 def tables():
-    T = {"xilinx": [], "intel": [], "gowin": []}
+    T = {"xilinx": [], "intel": [], "gowin": [], "literals": code_literals()}
+    usp_mults, usp_out0 = usp_code_ranges()
     for cls, mod, prim, _ in XILINX:
         for g in XILINX_GRADES:
             o = mk_xilinx(cls, g)
@@ -115,11 +185,11 @@ def tables():
             T["xilinx"].append({
                 "name": "%s:%d" % (cls, g), "prim": prim,
                 "divclk": tuple(o.divclk_divide_range),
-                "mults": USP_EIGHTHS if usp else divrange(o.clkfbout_mult_frange),
+                "mults": usp_mults if usp else divrange(o.clkfbout_mult_frange),
                 "vco": tuple(F(x) for x in o.vco_freq_range),
                 "common": divrange(o.clkout_divide_range),
                 "specific": spec,
-                "out0": USP_EIGHTHS if usp else None,
+                "out0": usp_out0 if usp else None,
                 "usp": usp, "nmax": o.nclkouts_max})
     from litex.soc.cores.clock.lattice_ecp5 import ECP5PLL
     T["ecp5"] = {"clki": ECP5PLL.clki_div_range, "clkfb": ECP5PLL.clkfb_div_range, "clko": ECP5PLL.clko_div_range,
@@ -346,16 +416,27 @@ def instance_outputs(module, of_names):
     return {}
 
 
-def do_calls(c, reg, creates):
-    """register_clkin / create_clkout in the order users may choose (clkin first or last)."""
+def do_calls(c, reg, creates, probe=None):
+    """register_clkin / create_clkout in the order users may choose (clkin first or last).  With c["interleave"] the
+    helper's search (`probe`) is also called after every create_clkout — on a partial request list it may succeed or
+    refuse (exceptions swallowed); the final answer must equal that of a fresh object (no state carried between calls)."""
+    def after():
+        if probe is not None and c.get("interleave"):
+            try:
+                with quiet():
+                    probe()
+            except Exception:
+                pass
     if c.get("clkin_last"):
         for t in creates:
             t()
+            after()
         reg()
     else:
         reg()
         for t in creates:
             t()
+            after()
 
 
 def kw_for(c, p, m, default_m=1e-2, with_phase=True):
@@ -369,9 +450,12 @@ def kw_for(c, p, m, default_m=1e-2, with_phase=True):
 
 
 def gen_flags(rng, c):
-    """rarely used call patterns: defaults left to the callee, clkin registered after the outputs."""
+    """rarely used call patterns: defaults left to the callee, clkin registered after the outputs, the search called on
+    the partial request list after every create_clkout (history on one object)."""
     c["defaults"] = rng.random() < 0.3
     c["clkin_last"] = rng.random() < 0.2
+    if c["fam"] in ("xilinx", "nx", "intel", "gw1n", "gw5a") and rng.random() < 0.15:
+        c["interleave"] = True        # (ECP5 excluded: open finding C20-ecp5-compute-config-not-idempotent)
     return c
 
 
@@ -579,7 +663,7 @@ class Xilinx:
                      [lambda i=i, f=f, p=p, m=m: o.create_clkout(cds[i], f, buf=bufs[i], with_reset=wrs[i],
                                                                  **({"ce": ces[i]} if ces[i] is not None else {}),
                                                                  **kw_for(c, p, m))
-                      for i, (f, p, m) in enumerate(c["outs"])])
+                      for i, (f, p, m) in enumerate(c["outs"])], probe=lambda: o.compute_config())
             cfg = finalize_capture(o)
             again = o.compute_config() if c.get("twice") else cfg
         except Exception as e:
@@ -820,6 +904,54 @@ class Xilinx:
     # --- generators
     WEIGHTS = {"S6PLL": 10, "S6DCM": 5, "S7PLL": 20, "S7MMCM": 16, "USPLL": 10, "USMMCM": 12, "USPPLL": 12, "USPMMCM": 8}
 
+    @staticmethod
+    def grid_ends(r):
+        a, b, st, k = r
+        n = (b - a + st - 1) // st
+        return F(a, k), F(a + (n - 1) * st, k)
+
+    def directed(self):
+        """Range extremes of every class / speed grade (pinned tables): requests at margin 0 whose valid settings need the
+        LAST (resp. FIRST) multiplier with the VCO on the upper (lower) edge of its window and the first (last) divider of
+        output 0 — at the top corner `f = vco_max/d_first` with `clkin = vco_max·divclk/mult_last` NO other
+        (divclk, mult, divider) of the declared grid reaches f (any other divider needs a VCO above the window), so a
+        search that lost the end of a range must refuse; the oracle's grid search then reports the refusal.  Also the
+        corners with the last input divider, a second output on the last common divider, and VCOs pinned to
+        clkin·mult_last below the top of the window."""
+        out = []
+        for name, d in sorted(self.devs.items()):
+            m_first, m_last = self.grid_ends(d["mults"])
+            dc_first, dc_last = d["divclk"][0], d["divclk"][1] - 1
+            r0 = self.ranges_for(d, 0)
+            d_first = min(self.grid_ends(r)[0] for r in r0)
+            d_last = max(self.grid_ends(r)[1] for r in r0)
+            c_first, c_last = self.grid_ends(d["common"])
+            vmin, vmax = d["vco"]
+            corners = []
+            for dc in (dc_first, dc_last):
+                corners.append((vmax, m_last, dc, d_first))
+                corners.append((vmin, m_first, dc, d_last))
+            # VCO = clkin*mult_last strictly inside the window (reference at the bottom of the usable input range)
+            for frac in (F(4, 5), F(24, 25)):
+                corners.append((vmax * frac, m_last, dc_first, d_first))
+            for (vco, mult, dc, dv) in corners:
+                clkin = vco * dc / mult
+                f0 = vco / dv
+                if vco > 10 ** 12 or not is_int(clkin) or not is_int(f0) or clkin < 1:
+                    continue
+                for second in (False, True):
+                    outs = [(float(f0), 0, 0)]
+                    if second and d["nmax"] > 1:
+                        f1 = vco / c_last
+                        if not is_int(f1):
+                            continue
+                        outs.append((float(f1), 90, 0))
+                    elif second:
+                        continue
+                    out.append({"fam": "xilinx", "dev": name, "clkin": float(clkin), "vm": 0.0, "outs": outs, "buf": None,
+                                "with_reset": False, "twice": False})
+        return out
+
     def gen(self, rng, dev=None):
         if dev is None:
             cls = rng.choices(list(self.WEIGHTS), weights=list(self.WEIGHTS.values()))[0]
@@ -842,12 +974,21 @@ class Xilinx:
             clkin = type(clkin)(rng.choice([400e6, 500e6, 600e6, 625e6, 750e6, 800e6]))
         vco = None
         ma, mb, ms, mk = d["mults"]
+        if rng.random() < 0.12:
+            # range extremes: reference chosen so that the FIRST / LAST multiplier puts the VCO inside the window
+            mult = rng.choice(self.grid_ends(d["mults"]))
+            dc = rng.choice([1, 1, 2, d["divclk"][1] - 1])
+            target = rng.choice([hi, lo, lo + (hi - lo) * F(rng.randrange(1, 100), 100)])
+            ck = int(target * dc / mult) if rng.random() < 0.5 else math.ceil(target * dc / mult)
+            if ck >= 1 and lo <= F(ck) * mult / dc <= hi and F(ck) * mult / dc < 10 ** 12:
+                clkin = float(ck)
         for _ in range(60):
             divclk = rng.choice([1, 1, 1, 1, 1, 2] if usp else [1, 1, 1, 2, 3, 4, 5, rng.randrange(*d["divclk"])])
             i_lo = max(0, math.ceil((lo * divclk / F(clkin) * mk - ma) / ms))
             i_hi = min((mb - ma + ms - 1) // ms - 1, math.floor((hi * divclk / F(clkin) * mk - ma) / ms))
             if i_lo <= i_hi:
-                vco = F(clkin) * F(ma + rng.randrange(i_lo, i_hi + 1) * ms, mk) / divclk
+                pick = rng.choice([i_lo, i_hi]) if rng.random() < 0.25 else rng.randrange(i_lo, i_hi + 1)
+                vco = F(clkin) * F(ma + pick * ms, mk) / divclk
                 break
         if vco is None and usp:
             return self.gen(rng, dev)
@@ -1149,6 +1290,13 @@ class Ecp5:
             viol.append("unexpected exception " + real.get("exc", ""))
         return viol, fl.borderline, fl.why, first, region
 
+    def directed(self):
+        """range extremes (margin 0): 3.125 MHz needs the LAST output divider (128) with the VCO on the lower edge of its
+        window; 400 MHz the first dividers / upper edge; the PFD on both edges of its window (10 MHz, 400 MHz)."""
+        mk = lambda ck, outs: {"fam": "ecp5", "clkin": ck, "dpa_en": False, "outs": [(f, p, 0, 0) for f, p in outs]}
+        return [mk(25e6, [(3.125e6, 0)]), mk(25e6, [(3.125e6, 0), (400e6, 90)]), mk(10e6, [(400e6, 0)]), mk(400e6, [(400e6, 0)]),
+                mk(400e6, [(3.125e6, 0), (6.25e6, 180)]), mk(10e6, [(6.25e6, 0), (800e6 / 127, 0)][:1]), mk(8e6 + 2e6, [(100e6, 45)])]
+
     def gen(self, rng):
         d = self.d
         clkin = gen_clkin(rng, float(d["clki_freq"][0]), float(d["clki_freq"][1]))
@@ -1156,9 +1304,9 @@ class Ecp5:
         dpa_en = rng.random() < 0.15
         vco = None
         for _ in range(60):
-            clki = rng.choice([1, 1, 1, 2, 3, 4, 5, 6, rng.randrange(1, 41)])
-            pfd = F(clkin) / clki
-            if not (d["pfd"][0] <= pfd <= d["pfd"][1]):
+            clki = rng.choice([1, 1, 1, 2, 3, 4, 5, 6, rng.randrange(1, 41), int(F(clkin) / d["pfd"][0])])
+            pfd = F(clkin) / max(clki, 1)
+            if clki < 1 or not (d["pfd"][0] <= pfd <= d["pfd"][1]):
                 continue
             K = rng.randrange(math.ceil(d["vco"][0] / pfd), math.floor(d["vco"][1] / pfd) + 1) if \
                 math.ceil(d["vco"][0] / pfd) <= math.floor(d["vco"][1] / pfd) else None
@@ -1174,7 +1322,7 @@ class Ecp5:
             m = rng.choice([0, 1e-6, 1e-3, 1e-2])
             p = rng.choice([0, 0, 0, 90, 180, 270, 45, 22.5, 135.0, 30, 60])
             if vco is not None and (kind != "any" or rng.random() < 0.5):
-                dv = rng.choice([rng.randrange(1, 129), rng.randrange(1, 17), rng.randrange(1, 9)])
+                dv = rng.choice([rng.randrange(1, 129), rng.randrange(1, 17), rng.randrange(1, 9), 128, 127])
                 while vco / dv > fhi:
                     dv += 1
                 f = vco / dv
@@ -1565,6 +1713,12 @@ class Ice40:
             viol.append("unexpected exception " + real.get("exc", ""))
         return viol, fl.borderline, fl.why, first
 
+    def directed(self):
+        """range extremes (margin 0, integer Hz): the only valid (DIVR, DIVF, DIVQ) uses the last DIVF (ratio 128/3 is
+        irreducible), the last DIVR (127/16), the last DIVQ (16 MHz = 1024 MHz / 64), the first DIVR/DIVF reachable."""
+        return [{"fam": "ice40", "clkin": ck, "out": (f, 0), "prim": "SB_PLL40_CORE", "twice": False, "with_reset": 0}
+                for ck, f in ((24e6, 256e6), (128e6, 254e6), (16e6, 16e6), (12e6, 67.5e6), (133e6 - 1e6, 264e6), (10e6, 270e6))]
+
     def gen(self, rng):
         d = self.d
         # clkin strictly below the top of clki_freq_range: at exactly 133 MHz the FILTER_RANGE table has no entry
@@ -1618,7 +1772,7 @@ class Nx:
             cds = [mk_cd(i) for i in range(len(c["outs"]))]
             do_calls(c, lambda: o.register_clkin(Signal(), c["clkin"]),
                      [lambda i=i, f=f, p=p, m=m: o.create_clkout(cds[i], f, **kw_for(c, p, m))
-                      for i, (f, p, m) in enumerate(c["outs"])])
+                      for i, (f, p, m) in enumerate(c["outs"])], probe=lambda: o.compute_config())
             if c.get("finalize"):
                 cfg = finalize_capture(o)
             else:
@@ -1783,17 +1937,25 @@ class Nx:
             region = None          # anything beyond the two listed findings is reported
         return viol, fl.borderline, fl.why, first, region
 
+    def directed(self):
+        """range extremes (margin 0): 10 MHz -> 640 MHz needs the LAST feedback divider (VCO 1280 MHz = 10 MHz * 128, the
+        only VCO in the window that 640 MHz divides); 6.25 MHz needs the LAST output divider with the VCO on its lower
+        edge; 800 MHz the first dividers."""
+        mk = lambda ck, outs: {"fam": "nx", "clkin": ck, "outs": [(f, p, 0) for f, p in outs], "finalize": False, "twice": False}
+        return [mk(10e6, [(640e6, 0)]), mk(25e6, [(6.25e6, 0)]), mk(25e6, [(800e6, 0)]), mk(12.5e6, [(800e6, 0), (12.5e6, 90)]),
+                mk(500e6, [(6.25e6, 0), (800e6, 0)]), mk(10e6, [(6.25e6, 180)])]
+
     def gen(self, rng):
         d = self.d
         clkin = gen_clkin(rng, float(d["clki_freq"][0]), float(d["clki_freq"][1]))
         k = rng.choice([1, 1, 2, 2, 3, 4, 5])
         vco = None
         for _ in range(60):
-            clki = rng.choice([1, 1, 1, 1, 2, 3, 4, rng.randrange(1, 20)])
+            clki = rng.choice([1, 1, 1, 1, 2, 3, 4, rng.randrange(1, 20), rng.randrange(1, 129)])
             pfd = F(clkin) / clki
             lo, hi = math.ceil(d["vco"][0] / pfd), min(128, math.floor(d["vco"][1] / pfd))
             if lo <= hi:
-                vco = pfd * rng.randrange(lo, hi + 1)
+                vco = pfd * (rng.choice([lo, hi]) if rng.random() < 0.25 else rng.randrange(lo, hi + 1))
                 break
         r = rng.random()
         kind = "sat" if r < 0.82 else "edge" if r < 0.92 else "any"
@@ -1804,7 +1966,7 @@ class Nx:
             m = rng.choice([0, 1e-6, 1e-3, 1e-2])
             p = rng.choice([0, 0, 0, 90, 180, 270, 45, 22.5, 135.0, 225])
             if vco is not None and (kind != "any" or rng.random() < 0.5):
-                dv = rng.choice([rng.randrange(1, 129), rng.randrange(1, 17), rng.randrange(2, 9)])
+                dv = rng.choice([rng.randrange(1, 129), rng.randrange(1, 17), rng.randrange(2, 9), 128])
                 while vco / dv > fhi:
                     dv += 1
                 f = vco / dv
@@ -1839,6 +2001,12 @@ class NxOsc:
         from litex.soc.cores.clock.lattice_nx import NXOSCA
         try:
             o = NXOSCA()
+            for (pf, pm) in c.get("pre", ()):          # earlier calls on the SAME object (may refuse): no state may survive
+                try:
+                    with quiet():
+                        o.compute_divisor(pf, pm)
+                except ValueError:
+                    pass
             return {"status": "ok", "div": int(o.compute_divisor(c["f"], c["m"]))}
         except Exception as e:
             return {"status": status_of(e), "exc": repr(e)}
@@ -1883,7 +2051,11 @@ class NxOsc:
         u = rng.choice([0, 0, 0.5, -0.5, 0.9, -0.9, 1.2, -1.2, 3])
         f = float(d["hf"] / (dv + 1) * (1 + F(u) * F(m)))
         f = min(max(f, 1.76), 450e6)
-        return {"fam": "nxosc", "f": f, "m": m}
+        c = {"fam": "nxosc", "f": f, "m": m}
+        if rng.random() < 0.5:       # history: satisfiable and unsatisfiable calls before this one
+            c["pre"] = [(float(d["hf"] / rng.choice([rng.randrange(1, 256), rng.randrange(1, 8) + 0.5])), rng.choice([0.0, 0.01, 0.05]))
+                        for _ in range(rng.choice([1, 1, 2]))]
+        return c
 
 
 
@@ -1951,13 +2123,27 @@ class NxOscFin:
                     viol.append("%s=%d gives %s Hz, requested %s Hz margin %s" % (nm, dv, float(hf / (dv + 1)), float(f), float(m)))
             # every placed item: the divisors are taken from the instance (checked against their requests above)
             viol += emit_viol(E.expect_nxosc(real["hf_div"] if c.get("hf") else None, real["div"], c.get("lf")), real)
-        elif real["status"] == "crash":
+        elif real["status"] == "rejected":
+            # refused only if one of the requests has no divisor (each request judged on its own, robustly)
+            sat = []
+            for req in (c.get("hf"), c["hfsdc"]):
+                if req is not None:
+                    f, m = F(req[0]), F(req[1])
+                    for x in range(*self.d["div"]):
+                        fl.cmp_le(abs(hf / (x + 1) - f), f * m, False, "margin", scale=f)
+                    sat.append(any(abs(hf / (x + 1) - f) <= f * m - SLACK * f for x in range(*self.d["div"])))
+            if all(sat):
+                viol.append("refused although every requested oscillator clock has a divisor")
+        else:
             viol.append("unexpected exception " + real.get("exc", ""))
         return viol, fl.borderline, fl.why, None
 
     def gen(self, rng):
         hf = self.d["hf"]
-        mk = lambda: (float(hf / rng.randrange(1, 256)), rng.choice([0.01, 0.05]))
+        def mk():
+            if rng.random() < 0.25:      # between two dividers: unsatisfiable for small margins (must be REFUSED)
+                return (float(hf / (rng.randrange(1, 12) + 0.5)), rng.choice([0.005, 0.01, 0.02]))
+            return (float(hf / rng.randrange(1, 256)), rng.choice([0.01, 0.05]))
         return {"fam": "nxoscfin", "hf": mk() if rng.random() < 0.8 else None, "hfsdc": mk(), "lf": int(rng.random() < 0.4)}
 
 
@@ -1986,7 +2172,7 @@ class Intel:
             wrs = [bool(x) for x in c["with_resets"]] if c.get("with_resets") else [False] * len(cds)
             do_calls(c, lambda: o.register_clkin(Signal(), c["clkin"]),
                      [lambda i=i, f=f, p=p, m=m: o.create_clkout(cds[i], f, with_reset=wrs[i], **kw_for(c, p, m))
-                      for i, (f, p, m) in enumerate(c["outs"])])
+                      for i, (f, p, m) in enumerate(c["outs"])], probe=lambda: o.compute_config())
             cfg = finalize_capture(o)
         except Exception as e:
             return {"status": status_of(e), "exc": repr(e)}
@@ -2242,7 +2428,7 @@ class Gw1n:
             wrs = [bool(x) for x in c["with_resets"]] if c.get("with_resets") else [False] * len(cds)
             do_calls(c, lambda: o.register_clkin(Signal(), c["clkin"]),
                      [lambda i=i, f=f, p=p, m=m: o.create_clkout(cds[i], f, with_reset=wrs[i], **kw_for(c, p, m))
-                      for i, (f, p, m) in enumerate(c["outs"])])
+                      for i, (f, p, m) in enumerate(c["outs"])], probe=lambda: o.compute_config())
             cfg = finalize_capture(o)
         except Exception as e:
             return {"status": status_of(e), "exc": repr(e)}
@@ -2461,6 +2647,10 @@ class Gw1n:
                             if len(outs) > 1 and (dev == "GW1NR" or ph == 90):
                                 out.append({"fam": "gw1n", "dev": dev, "clkin": 27e6, "vm": 0.0, "outs": outs,
                                             "with_resets": [int((i + len(outs)) % 2) for i in range(len(outs))]})
+        # range extremes (margin 0): FBDIV 63 (3 MHz * 63, ratio irreducible), IDIV 63 (252 MHz * 62 / 63), PFD on its lower edge
+        for dev in ("GW1NR", "GW2A", "GW1NS:C7/I6"):
+            for ck, f in ((3e6, 189e6), (252e6, 248e6), (189e6, 3e6 * 62), (3e6, 3e6 * 63 / 3)):
+                out.append({"fam": "gw1n", "dev": dev, "clkin": ck, "vm": 0.0, "outs": [(f, 0, 0)]})
         return out
 
 
@@ -2558,7 +2748,7 @@ class Gw5a:
             wrs = [bool(x) for x in c["with_resets"]] if c.get("with_resets") else [False] * len(cds)
             do_calls(c, lambda: o.register_clkin(Signal(), c["clkin"]),
                      [lambda i=i, f=f, p=p, m=m: o.create_clkout(cds[i], f, with_reset=wrs[i], **kw_for(c, p, m))
-                      for i, (f, p, m) in enumerate(c["outs"])])
+                      for i, (f, p, m) in enumerate(c["outs"])], probe=lambda: o.compute_config())
             cfg = finalize_capture(o)
         except Exception as e:
             return {"status": status_of(e), "exc": repr(e)}
